@@ -3,9 +3,10 @@ CONSTANTS
   NLanes = 2
   LineSize = 8
   Deviations <- NoDev
+  Window = 2
   LastIsLast = TRUE
   MemSize = 24
   MCOps <- OpsAll
   MCAddrs <- Addrs7
-INVARIANTS TypeOK NoCrash TxnSound RegsCorrect MemCorrect CountersZero CompletesOnce CompletesAfterLast
+INVARIANTS TypeOK WindowRespected OneLast NoCrash TxnSound RegsCorrect MemCorrect CountersZero CompletesOnce CompletesAfterLast
 CHECK_DEADLOCK FALSE
